@@ -16,7 +16,7 @@ Frequencies are carried in cycles per unit length `ν = k⊥/2π`, phases in tur
 
 * Fresnel   `D = exp(i k z) · exp(-i z k⊥²/(2k))`, `k = 2π n/λ`   ⇒  turns `n z/λ - z λ ν²/(2 n)`;
 * angular   `D = exp(i k_z z)`, `k_z = 2π √((n/λ)² - ν²)`          ⇒  radicand `(n/λ)² - ν²`
-  (negative radicand = evanescent wave).
+  (negative radicand = evanescent wave: `D = exp(-2π √(-radicand) · evanescentZ)`).
 -/
 namespace HcipyVerif.NearField
 
@@ -116,6 +116,14 @@ def fresnelSubTurns (p : Params) (ix iy : Nat) : List Rat :=
 /-- Angular spectrum: radicands of the sub-samples of pixel `(ix,iy)`. -/
 def angularSubRadicands (p : Params) (ix iy : Nat) : List Rat :=
   (subFreqs p ix iy).map fun (a, b) => radicand p a b
+
+/-- Distance that multiplies `|k_z|` in the decay `exp(-|k_z|·…)` of an evanescent component.
+Repaired code (finding D30): `k_z` is conjugated for negative distances, so evanescent waves decay with `|z|`
+in either direction and `D_{-z} = conj D_z` holds at every frequency. -/
+def evanescentZ (p : Params) : Rat := ratAbs p.z
+
+/-- Unrepaired behaviour: `exp(i k_z z)` with `k_z = +i|k_z|` — grows like `exp(|k_z||z|)` for `z < 0`. -/
+def evanescentZOld (p : Params) : Rat := p.z
 
 /-- Largest `|ν|` sampled along one axis (over all pixels and dithers). -/
 def nuMaxAbs (δ : Rat) (M s : Nat) : Rat :=
